@@ -27,7 +27,7 @@ def run(ctx):
     rng = ctx.rng
     new_ovs = [None, ('main', 'new'), ('d1/a', 'new'), ('d2/a', 'both')]
     old_ovs = [None, ('main', 'old'), ('d1/b', 'old'), ('main', 'alias'), ('d1/b', 'alias'), ('d2/a', 'alias'), ('main', 'oldsame'), ('d1/b', 'oldsame'),
-               ('main', 'rolenew'), ('d1/b', 'rolenew')]
+               ('main', 'rolenew'), ('d1/b', 'rolenew'), ('main', 'oldasnew'), ('d1/b', 'oldasnew')]
     n = 0
     rows = 0
     for variant in lc.VARIANTS:
@@ -70,7 +70,7 @@ def run(ctx):
                     # override that reads like the deprecated default -> the plain style; no override at all
                     # -> also the style whose check strings differ in letter case only)
                     style = (hi + off + rnd) % ns
-                    if rnd == 0 and any(op[0] == 'write' and op[2] == 'oldsame' for op in h):
+                    if rnd == 0 and any(op[0] == 'write' and op[2] in ('oldsame', 'oldasnew') for op in h):
                         style = 0
                     elif rnd == 0 and not any(op[0] == 'write' for op in h) and hi % 2 == 0:
                         style = ns - 1
